@@ -919,5 +919,58 @@ example : ∃ s : VSlice, s.addr + s.size ≤ U ∧ ISIZE_MAX < (Acc.ar s.toArr)
 #print axioms chain_readAt_no_panic
 #print axioms chain_writeAt_no_panic
 
+/-! ### the provided typed accessors over *any* implementation of `get_slice`
+
+`VolatileMemory::{get_ref, get_array_ref, aligned_as_ref, aligned_as_mut, get_atomic_ref}` are provided methods: they
+call the implementor's `get_slice(offset, count)` and then `assert_eq!(slice.len(), count)` before they build an
+accessor of `count` bytes at `slice.addr` with `unsafe` code.  For a third-party implementor whose `get_slice` hands
+out fewer bytes than asked, that assertion is the only thing between the accessor and the bytes behind the slice. -/
+/-- the provided method, for an arbitrary `get_slice`; `aligned` is the `check_alignment` step of the reference forms -/
+def typedVia (getSlice : Nat → Nat → Res VSlice) (offset count : Nat) (align : Option Nat) : Res VSlice :=
+  match getSlice offset count with
+  | .ok s =>
+    match align with
+    | some a => if s.addr % a ≠ 0 then .err .misaligned else if s.size = count then .ok { s with size := count } else .panic
+    | none => if s.size = count then .ok { s with size := count } else .panic
+  | .err e => .err e
+  | .panic => .panic
+
+/-- **whatever the implementor's `get_slice` returns, a typed accessor is handed out only if it is exactly the slice
+    `get_slice` returned** (so it designates only bytes the implementor vouched for), and only at an aligned address -/
+theorem typedVia_within (getSlice : Nat → Nat → Res VSlice) (offset count : Nat) (align : Option Nat) (a : VSlice)
+    (h : typedVia getSlice offset count align = .ok a) :
+    ∃ s, getSlice offset count = .ok s ∧ a.addr = s.addr ∧ a.size = s.size ∧ a.size = count ∧
+      (∀ al, align = some al → a.addr % al = 0) := by
+  unfold typedVia at h
+  cases hs : getSlice offset count with
+  | ok s =>
+    simp only [hs] at h
+    cases align with
+    | none =>
+      simp only at h
+      split at h
+      · rename_i hc; injection h with h; subst h; exact ⟨s, rfl, rfl, hc.symm, rfl, by intro al hal; cases hal⟩
+      · cases h
+    | some al =>
+      simp only at h
+      split at h
+      · cases h
+      · rename_i hal
+        split at h
+        · rename_i hc; injection h with h; subst h
+          refine ⟨s, rfl, rfl, hc.symm, rfl, ?_⟩
+          intro al' h'; injection h' with h'; subst h'; simpa using hal
+        · cases h
+  | err e => simp [hs] at h
+  | panic => simp [hs] at h
+
+/-- a `get_slice` that comes back short makes the provided method panic (it is never answered with an accessor) -/
+theorem typedVia_short_panics (getSlice : Nat → Nat → Res VSlice) (offset count : Nat) (s : VSlice)
+    (hs : getSlice offset count = .ok s) (hshort : s.size ≠ count) : typedVia getSlice offset count none = .panic := by
+  unfold typedVia; simp [hs, hshort]
+
+
 end C01
 end VmMem
+#print axioms VmMem.C01.typedVia_within
+#print axioms VmMem.C01.typedVia_short_panics
